@@ -12,9 +12,10 @@ from claims import CLAIMS, NOT_APPLICABLE, HOOK_COMMITS  # noqa: E402
 VERIF = os.path.dirname(HERE)
 
 props = [json.loads(l)["id"] for l in open(os.path.join(VERIF, "properties.jsonl"))]
+claimed = set(open(os.path.join(HERE, "claimed.txt")).read().split())
 checks = []
 for pid in props:
-    if pid not in REGISTRY or pid not in CLAIMS:
+    if pid not in REGISTRY or pid not in CLAIMS or pid not in claimed:
         continue
     c = CLAIMS[pid]
     spec = REGISTRY[pid]
